@@ -19,7 +19,13 @@ TECHNIQUE = "Lean 4 theorems about an exact route checker (sound+complete) + cor
 RULE = ("scenes: 1-12 (thorough <=40) interior-disjoint convex shapes (rectangles / convex k-gons) placed in grid cells, "
         "touching/shared edges/collinear corners frequent, or jittered into general position; 1-8 connectors with free-space "
         "endpoints (random or hugging shape corners); polyline (Lee / naive), orthogonal and mixed routers; buffer 0 or >0; "
-        "sampled penalties and options. A case is non-trivial if some route has >= 3 points (had to bend round a shape).")
+        "sampled penalties and options. Hyperedge classes (orthogonal router, improveHyperedgeRoutesMovingJunctions or "
+        "...MovingAddingAndDeletingJunctions, one free junction with 3-5 terminals, buffer 0 or >0): a parametrised 'z-branch' "
+        "family (randomly scaled/mirrored/transposed: a big shape forces one branch into a z whose middle part lies under a small "
+        "shape, so that shifted and merged hyperedge segments must stop at it; tags orth-hyperedge / orth-hyperedge-major) and random "
+        "grid scenes (tag orth-hyperedge-random); only displayRoute() is judged there, a junction end is expected at the "
+        "junction's recommendedPosition(). Every case runs in a child process (a library abort becomes a `crash` verdict). "
+        "A case is non-trivial if some route has >= 3 points (had to bend round a shape).")
 TRUSTED_BASE = ["Lean 4.33 kernel", "axioms: propext, Classical.choice, Quot.sound", "Lean compiler for the driver",
                 "harness + generator + hex-float import", "driver glue: parsing, bounding-box prefilter (completeness of the hit search only)"]
 ASSUMPTIONS = ["shapes are convex (generated so); interior := intersection of open edge half-planes",
